@@ -97,6 +97,26 @@ MISSED_FIRST = {
  "C02f-1": "needs a declared chunk length that is right modulo 65536 only; C02's adversarial metadata now has lengths wrong by 2^8, 2^16, 2^24 multiples",
  "C02f-3": "needs a run of more than five million selector opcodes (recursion per opcode, stack exhaustion); new sub-monitor with 5..9 MiB inputs of one short instruction repeated",
  "C14f-2": "needs the same graphic decoded twice into one Renderer under different options, its first colour write being indirect and equal to its last; C14's graphics are now built that way and half of the reuse cases decode them first with another colour at that entry",
+ "C03g-2": "needs an unknown chunk identifier that equals 0 or 1 in its low 8 bits (C13 caught it); the shared metadata assembler now writes unknown identifiers of such values",
+ "C15g-2": "needs At called beyond +-1e9; C15's gradient-type sub-monitor now samples padded linear gradients at +-2^31 against the first/last colour",
+ "C15g-3": "needs a pixel centre exactly on a stop offset whose range width w has w*(1/w) != 1; the gradient-type sub-monitor now puts stops on 64ths under a dyadic map and demands the exact stop colour",
+ "C20g-1": "needs a Generator value copied after SetTransform and the copy re-configured; a sixth of C20's generator cases now do that",
+ "C20g-2": "needs a number beyond the float32 range written out digit by digit; path strings now contain such numbers (what an affine map makes of an infinite operand is not judged, that the operation is emitted is)",
+ "C05g-1": "needs a rectangle overhanging the image top/left and a path that does not cover all of it; C15's pixel cases now have half-covering paths over a sentinel-filled image",
+ "C10g-1": "needs a palette that mixes 1-byte-only and 2-byte-only colours in a particular order (C01 and C09 caught it); C10's Reset arguments now include mixed palettes",
+ "C10g-3": "needs the palette colour 40404040 among 1-byte colours; same",
+ "C06g-1": "needs a rotation of a negative odd number of quarter turns with rx != ry; C06 now draws whole quarter turns of either sign",
+ "C17g-1": "needs program B to be a blank graphic (Reset only) and an observable other than the rasterizer log; C17 now has blank B and reads the selectors back after the decode",
+ "C17g-2": "needs LOD() as the very first call on a never-Reset Encoder with the resolution flag set; added to C17's zero-value run",
+ "C17g-3": "needs a rectangle of the same size at another origin between the two decodes (C16 caught it); added to C17's rectangle variants",
+ "C04g-2": "needs a Renderer value copied after SetRasterizer; an eighth of C04's direct programs now run on a copy",
+ "C02g-2": "needs the Draw rectangle to be compared with the target (C05 and C16 caught it); C02's recording rasterizer now checks it at every Draw",
+ "C02g-3": "needs Decode into a DestinationLogger in its Alt format on default metadata; an eighth of C02's inputs are now also decoded through the logger and the calls compared",
+ "C07g-3": "needs an arc rotation of hundreds of turns driven directly (the Encoder reduces it); C06 now has rotations of -4096..4096 turns plus an exact fraction",
+ "C01g-1": "needs an Encoder whose previous graphic latched a protocol error (C17 and C10 caught it); the shared past-history helper now ends a third of its histories with a protocol violation",
+ "C01g-2": "needs the Alt log format and a relative smooth quadratic (C05 caught it); an eighth of C01's transcoding hops now go through the logger",
+ "C18g-1": "needs two graphics of the same length in one reused buffer (a memo keyed by address and length); C18's viewBox tasks now do that and compare with the same bytes in a slice of their own",
+ "C18g-2": "needs a shared stop list with two stops at one offset given to Gradient.Init; added to C18's helper tasks",
  "C20-2": "SetTransform was called once with literals; C20 now configures the generator twice from a caller-held slice and checks that the slice is unchanged",
 }
 
